@@ -22,9 +22,15 @@ exact type; then pairs of kinds across the literal / non-literal boundary.  Then
 (exportscope.family): templates x contexts x name kinds for names bound by a comprehension / lambda / nested def /
 generator expression / walrus in one place of a formula and global (reference, cells, child space, ItemSpace
 parameter, built-in) in another - Python's own scoping is the oracle.
+Then the FAILURE family (exportfail.family): one model per way a formula can raise (eight kinds), with elements of
+0 / 1 / 2 parameters, cached and uncached, that fail for some arguments, callers that handle the failure with
+try/except, and every element read again after it failed - inside one query and across queries, in static, derived
+and parametrised spaces.
 Oracle (implementation only): wherever the model yields a value the package must yield the
 same value; the package must import; it must not load modelx; `export` must not raise.
-Queries on which the model itself raises are not compared.
+Queries on which the model itself raises are not compared - except in models that ask for it (`"compare_errors"`
+in the description: the failure family and its corpus witness), where the package must raise the same exception
+class that modelx reports inside its FormulaError: per query, the same value or the same exception class.
 
 Supplement (Lean, Props/C15.lean): the two decision procedures of the exporter that do not
 depend on formula text.  Correspondence for them:
@@ -37,6 +43,9 @@ depend on formula text.  Correspondence for them:
   * `rcp`: for every reference to a cells / space of every space, the form of its statement in the generated
     `_mx_copy_refs` (plain copy of the base's object / the item's counterpart if inside the base root) must be what
     `MxModel.Export.refCopyAction` selects for the reference's mode over the chain extracted from `ref_copies`;
+  * `cm`: every cache method of every generated class (a method `x` next to `_f_x`), read back with
+    tables.cache_method_tokens, must be the program extracted from the template in exporter.py - the program
+    `failed_evaluation_stores_nothing` / `stored_value_returned_thereafter` / `exported_cache_reads_eq_spec` are about;
   * `rsv`: for probe cells `lambda: <name>` whose name is an ItemSpace parameter named like a built-in, reached with
     some / all / none of the parametrised levels called: member, built-in or nothing on both sides as
     `MxModel.Export.exportedResolveAt` / `mxResolveAt` say (static access: the class-level `k = k` lines);
